@@ -284,6 +284,10 @@ class WSStream:
         if message is None:  # ASGI App has finished sending messages
             # Cleanup if required
             if self.state == ASGIWebsocketState.HANDSHAKE:
+                # The handshake is answered from here on, data that
+                # arrives whilst the response is being sent must not
+                # be answered with a second response.
+                self.state = ASGIWebsocketState.HTTPCLOSED
                 # This also records the access log entry
                 await self._send_error_response(500)
             elif self.state == ASGIWebsocketState.CONNECTED:
